@@ -5,6 +5,7 @@
 -/
 import Logg.Model.Format
 import Logg.Gen.Decisions
+import Logg.Gen.Facts
 
 namespace Logg.Props.C11
 open Logg
@@ -100,5 +101,10 @@ example : fmtOf (implCall (true, false) (.setJSON [false])) = .logfmt ∧
           fmtOf (implCall (false, true) (.setJSON [false])) = .color ∧
           fmtOf (implCall (false, true) (.setJSON [])) = .json ∧
           fmtOf (implCall (true, false) (.setColor [true, false])) = .logfmt := by decide
+
+/-- `other_loggers_untouched` is about the model's list of loggers; for the code it rests on the regenerated
+    fact that the format bits (like every per-logger setting) are only ever assigned through the receiver of
+    the method or option the assignment stands in: no statement copies a format into another logger. -/
+theorem format_written_through_the_receiver_only : Gen.foreignSettingWrites = [] := by decide
 
 end Logg.Props.C11
